@@ -342,6 +342,152 @@ func useValue(v *ds.VMValue, m *Meter, res *RunResult) (string, string) {
 	return "", ""
 }
 
+// livedInMap returns a variable map that has been used before (stores, misses, iteration, deletes,
+// clears in a seeded order): the target a host decodes into when it rolls a running VM back.
+func livedInMap(seed uint64, keys []string) *ds.ValueMap {
+	mm := &ds.ValueMap{}
+	r := NewRng(seed)
+	pool := append([]string{"a", "b", "c", "zz_old"}, keys...)
+	n := r.Intn(10)
+	for i := 0; i < n; i++ {
+		k := Pick(r, pool)
+		switch r.Intn(8) {
+		case 0, 1, 2:
+			mm.Store(k, ds.NewIntVal(ds.IntType(i)))
+		case 3:
+			mm.Load(k)
+		case 4:
+			mm.Range(func(string, *ds.VMValue) bool { return true })
+		case 5:
+			mm.Delete(k)
+		case 6:
+			mm.LoadOrStore(k, ds.NewIntVal(ds.IntType(100+i)))
+		default:
+			if r.Chance(1, 3) {
+				mm.Clear()
+			} else {
+				mm.Length()
+			}
+		}
+	}
+	return mm
+}
+
+// useLiveMap decodes a variable-map document into maps that have been used before and then uses
+// them as a VM's variables. Twin A is observed first (what did the decode leave?), twin B is
+// written to first. Returns a signature and a description when something crashed or when a
+// read-only operation changed what the map holds.
+func useLiveMap(doc string, seed uint64, m *Meter, res *RunResult) (string, string) {
+	var top map[string]json.RawMessage
+	if json.Unmarshal([]byte(doc), &top) != nil {
+		return "", ""
+	}
+	var keys []string
+	for k := range top {
+		keys = append(keys, k)
+	}
+	sort.Strings(keys)
+	if len(keys) > 40 {
+		keys = keys[:40]
+	}
+	A, B := livedInMap(seed, keys), livedInMap(seed, keys)
+	var ea, eb error
+	if p, _, _, sig, msg := Guard(func() { ea = json.Unmarshal([]byte(doc), A); eb = json.Unmarshal([]byte(doc), B) }); p {
+		return "livemap-decode-" + sig, "decoding into a used map panicked: " + msg
+	}
+	if ea != nil || eb != nil {
+		return "", ""
+	}
+	res.Fault("decode_into_used_map")
+	// A: lookups, then iteration, then lookups again must agree
+	var sig, what string
+	if p, _, _, s2, msg := Guard(func() {
+		probe := append([]string{"a", "b", "c", "zz_old", "zz_missing1", "zz_missing2", "zz_missing3"}, keys...)
+		before := map[string]bool{}
+		for _, k := range probe {
+			if _, ok := A.Load(k); ok {
+				before[k] = true
+			}
+		}
+		n1 := A.Length()
+		ranged := map[string]bool{}
+		A.Range(func(k string, _ *ds.VMValue) bool { ranged[k] = true; return true })
+		after := map[string]bool{}
+		for _, k := range probe {
+			if _, ok := A.Load(k); ok {
+				after[k] = true
+			}
+		}
+		n2 := A.Length()
+		for _, k := range probe {
+			if before[k] != ranged[k] || before[k] != after[k] {
+				sig, what = "livemap-readonly-ops-change-contents", fmt.Sprintf("key %q: Load before iteration found=%v, Range visited=%v, Load afterwards found=%v", k, before[k], ranged[k], after[k])
+				return
+			}
+		}
+		if n1 != len(ranged) || n2 != len(ranged) {
+			sig, what = "livemap-readonly-ops-change-contents", fmt.Sprintf("Length()=%d before and %d after a Range that visited %d keys", n1, n2, len(ranged))
+		}
+	}); p {
+		return "livemap-" + s2, "reading a map decoded into a used target panicked: " + msg
+	}
+	if sig != "" {
+		return sig, what
+	}
+	// B: written to first, host-side and from a script
+	want := CanonMap(A)
+	r := NewRng(seed ^ 0x5bd1)
+	hostFirst := r.Bool()
+	step := func(name string, f func()) bool {
+		if p, _, _, s2, msg := Guard(f); p {
+			sig, what = "livemap-"+s2, name+" on a map decoded into a used target panicked: "+msg
+			return false
+		}
+		return true
+	}
+	script := func() bool {
+		vm := ds.NewVM()
+		vm.Config.OpCountLimit = 20000
+		vm.Attrs = B
+		m.Reset()
+		o := DoCmd(vm, Cmd{Kind: "run", Src: "zz_fresh = 7; zz_fresh + 1"})
+		res.Evals++
+		if o.Panic != "" {
+			sig, what = "livemap-"+o.Panic, "assigning a new variable in a script panicked ("+o.PanicAt+")"
+			return false
+		}
+		if o.Err != "" || o.Ret != "i8" {
+			sig, what = "livemap-script-assignment-fails", fmt.Sprintf("'zz_fresh = 7; zz_fresh + 1' on the restored variables gives %s", o.Short())
+			return false
+		}
+		return true
+	}
+	host := func() bool {
+		return step("Store of a new key", func() { B.Store("zz_host", ds.NewIntVal(5)) }) &&
+			step("LoadOrStore of a new key", func() { B.LoadOrStore("zz_host2", ds.NewIntVal(6)) })
+	}
+	if hostFirst {
+		if !host() || !script() {
+			return sig, what
+		}
+	} else {
+		if !script() || !host() {
+			return sig, what
+		}
+	}
+	if !step("cleanup", func() { B.Delete("zz_fresh"); B.Delete("zz_host"); B.Delete("zz_host2") }) {
+		return sig, what
+	}
+	var got string
+	if !step("printing", func() { got = CanonMap(B) }) {
+		return sig, what
+	}
+	if got != want {
+		return "livemap-twins-differ", fmt.Sprintf("two identically used maps hold different variables after the same decode, depending on whether they were read or written first\n  read first:    %s\n  written first: %s", trunc(want, 300), trunc(got, 300))
+	}
+	return "", ""
+}
+
 // valueShape abstracts a value to its tree of types (scalars lose their payload, except that
 // empty / negative / huge are kept apart).
 func valueShape(v *ds.VMValue) string {
@@ -426,6 +572,7 @@ func c10Exec(raw json.RawMessage, res *RunResult) {
 	var firstBadSig string
 	seen := map[string]bool{}
 	shapes := map[string]bool{}
+	liveDone := 0
 	for _, doc := range docs {
 		if seen[doc] {
 			continue
@@ -467,6 +614,19 @@ func c10Exec(raw json.RawMessage, res *RunResult) {
 			}
 			decoded++
 			res.Probe("decode_ok")
+			if asMap && liveDone < 6 {
+				liveDone++
+				for st := uint64(0); st < 3; st++ {
+					// the used target's history is a function of the document alone: a replay of the document reproduces it
+					if sig, what := useLiveMap(doc, HashStr(doc)+st, m, res); sig != "" {
+						res.Violate(sig, "%s\n  doc=%s", what, trunc(doc, 400))
+						if firstBad == "" {
+							firstBad, firstBadSig = doc, sig
+						}
+						break
+					}
+				}
+			}
 			for _, v := range vals {
 				if v != nil {
 					// the battery runs once per distinct type-shape of a decoded value (a flipped digit or
